@@ -4,9 +4,22 @@ import (
 	"encoding/json"
 	"fmt"
 	"net/http"
+	"strings"
 
 	"golang.org/x/crypto/bcrypt"
 )
+
+// maxPasswordLength is the number of password bytes bcrypt takes into account.
+const maxPasswordLength = 72
+
+// validPassword reports whether password is one bcrypt tells apart from every
+// other such password. bcrypt ignores everything after the first 72 bytes, and
+// it keys on the password followed by a NUL byte, repeated: with a NUL inside,
+// or beyond 72 bytes, different strings verify against the same hash ("pw" and
+// "pw\x00pw", or a 72-byte password and any extension of it).
+func validPassword(password string) bool {
+	return len(password) <= maxPasswordLength && !strings.ContainsRune(password, 0)
+}
 
 // User represents a stored user. The data here are used to
 // populate user once the user has authenticated.
@@ -74,6 +87,11 @@ func (s *Server) HandlePutUser(w http.ResponseWriter, r *http.Request) {
 	user.Name = r.PathValue("id")
 
 	if user.PlaintextPassword != nil {
+		if !validPassword(*user.PlaintextPassword) {
+			s.logger.Printf("ERROR: password for user '%s' is longer than %d bytes or contains a NUL byte", user.Name, maxPasswordLength)
+			http.Error(w, http.StatusText(http.StatusBadRequest), http.StatusBadRequest)
+			return
+		}
 		var err error
 		user.HashedPassword, err = bcrypt.GenerateFromPassword([]byte(*user.PlaintextPassword), bcrypt.DefaultCost)
 		if err != nil {
